@@ -109,6 +109,21 @@ PROPS = {
         floor={'quick': 300, 'thorough': 1000},
         timeout={'quick': 3000, 'thorough': 14000},
     ),
+    'C03': dict(
+        runs=[dict(src='c03_hostile_input.c', ldflags='-Wl,--wrap=read,--wrap=lseek')],
+        level='exploration',
+        rule=('case = one input = (corpus file written by the library for a format/channels/metadata level, mutation recipe) or random bytes; 100 inputs per '
+              'corpus file quick, 1500 thorough: unmodified, ~40 truncations (dense in the header, 97-byte steps in the data), 1-4 stacked mutations from '
+              '{byte, bit, 32-bit hostile value LE/BE, +-delta, 16-bit value, truncate, chunk-size field after a marker, duplicate/delete a chunk, splice from '
+              'another format, insert a 17-77 KB skippable chunk, noise run}, random bytes with/without magic. Routes: virtual I/O (5/8), memfd descriptor (2/8), pipe (1/8). After a successful '
+              'open a seeded script of reads (4 types, item/frame), seeks (3 whence), strings, chunk iteration + short-buffer gets, metadata and CALC '
+              'commands runs on exact-size buffers. distinct = hash(input bytes, route)'),
+        assumptions=COMMON_ASSUME + ['termination: I/O-callback budget 64 x (input bytes + 70000) + 4096 (deterministic), the same budget on read()/lseek() calls for the descriptor and pipe routes (--wrap), and an 8 s wall watchdog that must fire twice',
+                                     'UBSan shift/signed-overflow/alignment checks are off (see DESIGN section 3); the ALAC mShiftBuffer union idiom is filtered',
+                                     'inputs are derived from 300-frame files; multi-megabyte inputs are not explored'],
+        floor={'quick': 5000, 'thorough': 50000},
+        timeout={'quick': 3000, 'thorough': 20000},
+    ),
 }
 
 NOT_APPLICABLE = {}
